@@ -108,7 +108,17 @@ class FunctionInteractionsUtils(object):
         for fi0 in fi.parsed_body:
             if isinstance(fi0, FunctionInteractions):
                 res += cls.all_store_paths(fi0).items()
-        return OrderedDict(res)
+        paths: "OrderedDict[DDSPath, PyHash]" = OrderedDict()
+        for (p, sig) in res:
+            if p in paths and paths[p] != sig:
+                # The same path cannot hold two different results in one evaluation
+                raise DDSException(
+                    f"The path {p} is kept more than once in the same evaluation, with different "
+                    f"code or arguments. Suggestion: use a different path for each of these calls.",
+                    DDSErrorCode.OVERLAPPING_PATH,
+                )
+            paths[p] = sig
+        return paths
 
     @classmethod
     def all_indirect_deps(cls, fis: FunctionInteractions) -> Set[DDSPath]:
